@@ -17,7 +17,7 @@ RULE = ("Scalar expressions are generated as a chain of 0-2 tensor->tensor opera
         "autograd (agreement at 1e-9 relative), central finite differences along 2 random directions (1e-6), equal "
         "values, and grad.grad / grad.grad_list (tensor list = a drawn ordered subset of all leaves, so mixed orders and operators; both all_in_one settings) returning exactly those derivatives, grouped per tensor, with the core shapes (None for "
         "untracked cores). Non-trivial: >=2 distinct op kinds and a proper subset of cores tracked.")
-BUDGET = {"quick": 3200, "thorough": 320000}
+BUDGET = {"quick": 8000, "thorough": 320000}
 FLOORS = {"quick": {"chain:2": 500, "grad_api": 300, "grad_list_mixed_orders": 60, "track:watch": 500, "operator_tracked": 300}}
 ASSUMPTIONS = ["norm terminals are evaluated away from zero (non-differentiable there)", "real float64 only"]
 
